@@ -1,2 +1,2 @@
     ensures
-        r is Ok ==> thresholds_ok(*layout, steps_links_metadata@, r->Ok_0@),   // [C02]
+        r is Ok ==> thresholds_ok(*layout, steps_links_metadata@, r->Ok_0@),   // [C02,C08]
